@@ -121,6 +121,19 @@ AngleOK(a) ==
        /\ FSmall1(FSub(FMul(F12, a.c), Cos12(x)), F12, TAYLBITS)
        /\ FSmall1(FSub(FMul(F11, a.s), Sin11(x)), F11, TAYLBITS)
 Phasor(a) == SqN(<<a.c, a.s>>, a.h)          \* (cos th, sin th) once AngleOK(a)
+\* any G >= 3 (odd grids): the angle th = 2 Pi / G is certified - G th = 2 Pi, (cos th, sin th) =
+\* conj w through the cos/sin certificate, which singles out the root; w^G = 1 (binary powering)
+\* bounds the error of every power of w
+RECURSIVE CPow(_, _)
+CPow(z, n) == IF n = 0 THEN C1 ELSE IF n % 2 = 0 THEN LET h == CPow(z, n \div 2) IN CMulT(h, h)
+              ELSE CMulT(z, CPow(z, n - 1))
+RootAngleOK(w, a, G) ==
+  /\ G >= 3 /\ UnitOK(w)
+  /\ IsFin(a.th) /\ a.th.s = 1 /\ Near(FMul(a.th, DInt(G)), DShift(Pi, 1), ROOTBITS)
+  /\ AngleOK(a)
+  /\ CNear(Phasor(a), <<w[1], DNeg(w[2])>>, ANGBITS)
+  /\ CNear(CPow(CTr(w), G), C1, ROOTBITS)
+RootOKG(e, G) == IF IsPow2(G) THEN RootOK(e.w, G) ELSE RootAngleOK(e.w, e.wa, G)
 \* phi = arccos r with s = sin phi = sqrt(1 - r^2):  0 <= r <= 1, s >= 0, phi in [0, 2]
 ArccosOK(r, s, a) ==
   /\ IsFin(r) /\ IsFin(s) /\ r.s >= 0 /\ s.s >= 0 /\ a.th.s >= 0 /\ a.h = 3
@@ -211,6 +224,8 @@ IntensityOK(v, Nrm, s2, T, bits) ==
 (*  e.N, e.G      pupil sampling and grid size asked for                     *)
 (*  e.P, e.M      the complex pupil the implementation built, and its moduli  *)
 (*  e.w           root-of-unity certificate <<c1, s1>>                        *)
+(*  e.wa          cos/sin certificate of the angle 2 Pi / G (used when G is   *)
+(*                not a power of two)                                        *)
 (*  e.rows, e.cols  shape of the psf array                                    *)
 (*  e.img         the whole image (rows of pixels) or <<>>                    *)
 (*  e.sum, e.min, e.max  reductions of the image by the recorder (used for    *)
@@ -235,7 +250,7 @@ JudgePsf(e) ==
       hasimg == e.img # <<>>
       modok == ModOK(P, M, N)
       shapeok == e.rows = G /\ e.cols = G
-      rootok == RootOK(e.w, G)
+      rootok == RootOKG(e, G)
       pixfin == \A i \in 1..Len(e.pix) : IsFin(e.pix[i][3])
       fin == /\ IsFin(e.centre) /\ IsFin(e.strehl) /\ IsFin(e.sum) /\ IsFin(e.min) /\ IsFin(e.max) /\ pixfin
              /\ hasimg => \A a \in 1..Len(e.img) : \A b \in 1..Len(e.img[a]) : IsFin(e.img[a][b])
@@ -357,7 +372,7 @@ DlCertOK(d, N) ==        \* d = <<k, r, s, a>>
 JudgeFftMtf(e) ==
   LET N == e.N
       G == e.G
-      H == G \div 2
+      H == G - G \div 2                    \* samples at the non-negative frequencies (G may be odd)
       q == e.q
       haspupil == e.P # <<>>
       lenok == Len(e.tan) = H /\ Len(e.sag) = H
